@@ -30,6 +30,8 @@ PROFILES = {
     "s20": dict(CHUNK=20, CIPHER_BUF=7, BLOCK=48, FS_CACHE=5, REPAIR_CACHE=32),
     "s32": dict(CHUNK=32, CIPHER_BUF=16, BLOCK=64, FS_CACHE=8, REPAIR_CACHE=64),
     "s12": dict(CHUNK=12, CIPHER_BUF=5, BLOCK=24, FS_CACHE=3, REPAIR_CACHE=16),
+    # chunk larger than a block header + some content: several blocks (and seek targets) per chunk
+    "s64": dict(CHUNK=64, CIPHER_BUF=16, BLOCK=160, FS_CACHE=8, REPAIR_CACHE=64),
     "prod": dict(),
 }
 
